@@ -103,6 +103,9 @@ func (r *InboundRequestSingleFlight) GetOrCreate(ctx *Context, response *GraphQL
 	binary.LittleEndian.PutUint64(b[16:24], hh)
 	h := pool.Hash64.Get()
 	_, _ = h.Write(b[:])
+	// The extensions of the client's request are sent to the subgraphs with every fetch: requests
+	// that differ there are answered differently and must not share a response.
+	_, _ = h.Write(ctx.Extensions)
 	key := h.Sum64()
 	pool.Hash64.Put(h)
 
